@@ -20,6 +20,12 @@ TIMING = ["0.000=120.000", "0.000=120.000,\n4.000=180.5,\n16.000=90", "0.000=60"
 STOPS = ["", "4.000=0.500", "1.000=0.250,\n9.500=1"]
 
 
+TEMPLATE_KEYS = ["TITLE", "SUBTITLE", "ARTIST", "TITLETRANSLIT", "SUBTITLETRANSLIT", "ARTISTTRANSLIT", "GENRE", "ORIGIN", "CREDIT", "BANNER",
+                 "BACKGROUND", "PREVIEWVID", "JACKET", "CDIMAGE", "DISCIMAGE", "LYRICSPATH", "CDTITLE", "MUSIC", "SAMPLESTART", "SAMPLELENGTH",
+                 "SELECTABLE", "TIMESIGNATURES", "TICKCOUNTS", "COMBOS", "SPEEDS", "SCROLLS", "FAKES", "LABELS", "BGCHANGES", "KEYSOUNDS", "ATTACKS",
+                 "FGCHANGES", "DISPLAYBPM", "INSTRUMENTTRACK", "ANIMATIONS"]
+
+
 def rand_sm(rng, negative=False):
     props = [["TITLE", G.rand_value(rng)], ["OFFSET", rng.choice(["0.000", "-0.125", "1.5"])], ["BPMS", rng.choice(TIMING)], ["STOPS", rng.choice(STOPS)]]
     if negative:
@@ -32,6 +38,11 @@ def rand_sm(rng, negative=False):
                       ("LABELS", ["0=y"]), ("ATTACKS", ["a:b"]), ("DISPLAYBPM", ["1:2", "*"]), ("ARTIST", ["猫"]), ("EXTRA KEY", ["v"])):
         if rng.random() < 0.3:
             props.append([key, rng.choice(vals)])
+    # keys the blank SSC template also has (so that template and source compete), with blank, whitespace-only and ordinary values
+    have = {k for k, _ in props}
+    for key in TEMPLATE_KEYS:
+        if key not in have and key not in ("BPMS", "STOPS", "OFFSET", "DELAYS", "WARPS", "VERSION") and rng.random() < 0.12:
+            props.append([key, rng.choice(["", "", " ", "\n", "0.000=1", "x", "0.000=4=4"])])
     if rng.random() < 0.5:
         rng.shuffle(props)
     charts = []
@@ -56,6 +67,8 @@ def rand_templates(rng):
 def corpus():
     out = [{"src": "corpus", "ts": None, "tc": None}]
     out.append({"src": [[["OFFSET", "0"], ["BPMS", "0.000=120.000"], ["STOPS", "2.000=-0.500"]], []], "ts": None, "tc": None})          # negative stop only
+    out.append({"src": [[["OFFSET", "0"], ["BPMS", "0.000=120.000"], ["STOPS", ""], ["LABELS", ""], ["TICKCOUNTS", " "], ["TIMESIGNATURES", ""], ["TITLE", ""]], []],
+                "ts": None, "tc": None})                                                                                              # blank values where the template has defaults
     out.append({"src": [[["OFFSET", "0"], ["BPMS", "0.000=120.000"], ["STOPS", ""]], [["a", "b", "c", "1", "0", "0000", []]]],
                 "ts": {"props": "blank", "extra": [], "charts": 2}, "tc": None})                                                     # template with charts
     return out
